@@ -137,6 +137,34 @@ func (fc *FuncCtx) merge(states []*State) *State {
 	for k, v := range live[0].names {
 		out.names[k] = v
 	}
+	// ghost variables: merged like program variables
+	if fc.contract != nil {
+		for _, gv := range fc.contract.GhostVars {
+			var vals []Val
+			for _, s := range live {
+				if v, ok := s.names[gv.Name]; ok && v.T != nil {
+					vals = append(vals, v)
+				}
+			}
+			if len(vals) != len(live) {
+				continue
+			}
+			same := true
+			for _, v := range vals[1:] {
+				if v.T != vals[0].T {
+					same = false
+				}
+			}
+			if same {
+				continue
+			}
+			m := fc.freshConst("gv_"+gv.Name, vals[0].T.Sort)
+			for i, v := range vals {
+				out.assume(Implies(guards[i], Eq(m, v.T)))
+			}
+			out.names[gv.Name] = Val{T: m, Typ: vals[0].Typ}
+		}
+	}
 	return out
 }
 
@@ -205,9 +233,75 @@ func (fc *FuncCtx) runHints(st *State, s ast.Stmt, when string) {
 		if when == "before" {
 			sc.pos = s.Pos()
 		}
+		if h.Target != "" {
+			fc.ghostAssign(st, h, sc)
+			continue
+		}
 		g := fc.evalSpecBool(st, h.Clause.Expr, sc)
 		fc.emit(st, "assert", "intermediate assertion "+when+" `"+h.Anchor+"`", g, s.Pos(), h.Clause.Text)
 		st.assume(g)
+	}
+}
+
+// ghostAssign executes a ghost assignment "x = e" / "x[i] = e" on a ghost variable of the function.
+func (fc *FuncCtx) ghostAssign(st *State, h *AssertHint, sc *specCtx) {
+	cur, ok := st.names[h.Target]
+	if !ok || cur.T == nil {
+		panic(engineError{"ghostset: unknown ghost variable " + h.Target})
+	}
+	fc.noOblig++
+	defer func() { fc.noOblig-- }()
+	v := fc.evalSpec(st, h.Value, sc)
+	if v.T == nil && v.Loc != nil {
+		v = Val{T: fc.readLoc(st, v.Loc), Typ: v.Loc.Typ}
+	}
+	if v.T == nil {
+		panic(engineError{"ghostset: value is not a term: " + h.Clause.Text})
+	}
+	if h.Index == nil {
+		st.names[h.Target] = Val{T: fc.nameTerm(st, "gv_"+h.Target, fc.coerceTerm(v.T, cur.T.Sort)), Typ: cur.Typ}
+		return
+	}
+	idx := fc.evalSpec(st, h.Index, sc)
+	switch cur.T.Sort.Kind {
+	case "Map":
+		k := fc.coerceTerm(idx.T, cur.T.Sort.Key)
+		nm := MkMap(Store(MapArr(cur.T), k, fc.coerceTerm(v.T, cur.T.Sort.Elem)), Store(MapDom(cur.T), k, TTrue))
+		st.names[h.Target] = Val{T: fc.nameTerm(st, "gv_"+h.Target, nm), Typ: cur.Typ}
+	default:
+		panic(engineError{"ghostset: indexed assignment needs a ghost variable of map type: " + h.Target})
+	}
+}
+
+// havocGhost: ghost variables assigned by a ghostset anchored at a statement inside n get a fresh value (loop frame)
+func (fc *FuncCtx) havocGhost(st *State, n ast.Node) {
+	if fc.contract == nil || len(fc.contract.GhostVars) == 0 {
+		return
+	}
+	hit := map[string]bool{}
+	ast.Inspect(n, func(nd ast.Node) bool {
+		s, ok := nd.(ast.Stmt)
+		if !ok {
+			return true
+		}
+		txt := ""
+		for _, h := range fc.contract.Asserts {
+			if h.Target == "" || hit[h.Target] {
+				continue
+			}
+			if txt == "" {
+				txt = fc.stmtText(s)
+			}
+			if strings.HasPrefix(txt, strings.Join(strings.Fields(h.Anchor), " ")) {
+				hit[h.Target] = true
+			}
+		}
+		return true
+	})
+	for name := range hit {
+		if cur, ok := st.names[name]; ok && cur.T != nil {
+			st.names[name] = Val{T: fc.freshConst("gv_"+name, cur.T.Sort), Typ: cur.Typ}
+		}
 	}
 }
 
@@ -674,6 +768,10 @@ func (fc *FuncCtx) scanAssigned(n ast.Node) *assignedSet {
 					}
 				}
 			}
+			// samplers advance the state of the reader they are given
+			if fn := fc.staticCallee(x); fn != nil && hasReaderParam(fn) && fc.eng.contractFor(fn) == nil {
+				as.fields["GF$shk"] = SV
+			}
 			// callee contract modifies
 			if fn := fc.staticCallee(x); fn != nil {
 				if c := fc.eng.contractFor(fn); c != nil {
@@ -879,6 +977,7 @@ func (fc *FuncCtx) execFor(st *State, x *ast.ForStmt) flow {
 	}
 	head := st.clone()
 	fc.havocSet(head, as)
+	fc.havocGhost(head, x.Body)
 	fc.assumeInvariants(head, lc, fc.loopSpecCtx(head, bodyPos))
 	// 3. guard
 	var cond *Term = TTrue
@@ -981,6 +1080,7 @@ func (fc *FuncCtx) execRange(st *State, x *ast.RangeStmt) flow {
 	as := fc.scanAssigned(x.Body)
 	head := st.clone()
 	fc.havocSet(head, as)
+	fc.havocGhost(head, x.Body)
 	k := fc.freshConst("k", SInt)
 	head.assume(And(Le(IntLit(0), k), Le(k, n)))
 	head.names[idxName] = Val{T: k, Typ: types.Typ[types.Int]}
